@@ -37,6 +37,7 @@ let dispatch (name : string) (args : M.n list) : M.n list list =
   | "SRC" -> M.run_src args
   | "DBG" -> M.run_dbg args
   | "C20" -> M.run_c20 args
+  | "C14" -> M.run_c14 args
   | _ -> failwith ("unknown case kind " ^ name)
 
 let () =
